@@ -8,7 +8,7 @@
 #define IORA_NL 1
 #define IORA_NT 4
 #define IORA_NC 2
-typedef struct { uint64_t id; int fd; } Listener;
+typedef struct { uint64_t id; int fd; TlsMode tls; } Listener;
 typedef struct { bool isListener; Listener *lst; Session *sess; } Tag;
 typedef struct { unsigned set_calls; bool value; } iora_promise;          /* std::promise<bool> behind a shared_ptr */
 typedef struct { Cmd t; struct { SessionId sid; } c; iora_promise *listenerReady; } Command;
